@@ -219,6 +219,20 @@ def lay311(ctx: Ctx) -> None:
     ref = "localsplus_offset + wordsize * (len(set(co.co_varnames + co.co_cellvars)) + len(co.co_freevars))"
     if len(ss) == 1 and norm(ss[0].value) == ref:
         ctx.R.ok("LAY-311", "value stack starts after len(set(co_varnames + co_cellvars)) + len(co_freevars) slots (= co_nlocalsplus)")
+    elif len(ss) == 1:
+        from .formulas import eval_on_code_vectors
+        pre_ = [a for a in fn.body if isinstance(a, ast.Assign) and len(a.targets) == 1 and isinstance(a.targets[0], ast.Name) and a.lineno < ss[0].lineno
+                and not any(isinstance(c_, ast.Call) and "ctypes" in norm(c_.func) for c_ in ast.walk(a.value)) and norm(a.targets[0]) not in ("co", "localsplus_offset")]
+        kind, info = eval_on_code_vectors(ctx, [v_ for v_ in sorted(ctx.V.all) if v_ in ("3.11", "3.12")], ss[0].value, "localsplus_offset", +1, prelude=pre_)
+        if kind == "ok":
+            ctx.R.ok("LAY-311", f"stack_start_offset = {norm(ss[0].value)[:70]}", f"agrees with the observed number of fast-locals slots on {info} code-object shapes (FACTS localsplus_vectors)")
+        elif kind == "bad":
+            v_, vec, got, want = info
+            ctx.R.fail("LAY-311", mod, ss[0], f"`stack_start_offset = {norm(ss[0].value)[:80]}` starts the value stack {(got - 4096) // 8} slots after localsplus for a function like `{vec['name']}` "
+                       f"(varnames {vec['co_varnames']}, cellvars {vec['co_cellvars']}, freevars {vec['co_freevars']}) on CPython {v_}; the frame has {vec['slots']} fast-locals slots (co_nlocalsplus): "
+                       "every stack slot is read at a shifted address (wrong managers, or a non-object word dereferenced)", construct=f"stack_start_offset: slot count wrong for {vec['name']}-shaped functions on {v_}")
+        else:
+            ctx.R.undecided("LAY-311", f"the number of localsplus slots before the value stack is computed by an expression outside the evaluator's fragment: {info}")
     else:
         ctx.R.undecided("LAY-311", "the number of localsplus slots before the value stack is computed by an expression other than the reference one "
                         "(len(set(co_varnames + co_cellvars)) + len(co_freevars)); its agreement with co_nlocalsplus on 3.11 and 3.12 cannot be decided statically")
